@@ -264,7 +264,7 @@ void ezc3d::ParametersNS::Parameters::write(std::fstream &f) const
     if (int(actualPos) % 512 > 0)
         ++nBlocksToNext;
     ++nBlocksToNext; // Block numbers are 1-based
-    f.write(reinterpret_cast<const char*>(&nBlocksToNext), ezc3d::BYTE);
+    f.write(reinterpret_cast<const char*>(&nBlocksToNext), 2*ezc3d::BYTE); // DATA_START is a 16-bit integer
     f.seekg(actualPos);
 }
 
